@@ -175,6 +175,9 @@ func (f *frame) abstractContractCall(key string, sig *types.Signature, x ssa.Cal
 		tp := vc.fresh(f.prefix+"top_icall", "Int")
 		vc.assert(App(">=", tp, pre.Top))
 		st.Top = tp
+		if pats == nil {
+			pats = []modPat{} // 'assigns nothing': no heap was havocked, nothing to re-assume
+		}
 		vc.assertHeapWF(st, pats)
 	}
 	var rtype types.Type = sig.Results()
